@@ -440,7 +440,7 @@ func worker(dcPath, mode string, kinds []string) {
 				if onlyModelled(in, modelled, bx.Registered) && len(in) <= 20000 {
 					mflag, q = "M1", hx.Hex(in)
 				} else if fb := bx.FailBox[f.Site+"/"+f.Class]; len(fb) >= 8 && len(fb) <= 20000 && onlyModelled(fb, modelled, bx.Registered) {
-					mflag, q = "M1", hx.Hex(fb)
+					mflag, q = "M2", hx.Hex(fb) // the failing box taken out of its context
 				}
 			}
 			fmt.Fprintf(out, "FAIL\t%s\t%s\t%s\t%s\t%s\t%s\n", f.Site, f.Class, f.Witness, strings.ReplaceAll(f.Desc, "\n", " "), mflag, q)
